@@ -95,7 +95,8 @@ def cases(rng, tier):
 		yield ('form', cs, tuple(pairs))
 		yield ('query', tuple(pairs))
 	# percent signs followed by hex digits, names and values made of letters / digits outside ASCII only: data like any other
-	for pairs in (((u'name', u'%41'),), ((u'%e9', u'x'),), ((u'a', u'100%25'), (u'%2B', u'%26')), ((u'caf\u00e9', u'\u0432'),), ((u'\u65e5\u672c', u'\u0663'),), ((u'k', u'%'), (u'%', u'%%41')), ((u'\u00df', u'\u00b5\u00aa'),)):
+	for pairs in (((u'name', u'%41'),), ((u'%e9', u'x'),), ((u'a', u'100%25'), (u'%2B', u'%26')), ((u'caf\u00e9', u'\u0432'),), ((u'\u65e5\u672c', u'\u0663'),), ((u'k', u'%'), (u'%', u'%%41')), ((u'\u00df', u'\u00b5\u00aa'),),
+			((u'a b', u''),), ((u'a+b', u''),), ((u' ', u''),), ((u'a b', u''), (u'c', u'')), ((u'x y z', u''),), ((u'token', u''),)):
 		for cs in ('utf-8', 'iso8859-1'):
 			yield ('form', cs, pairs)
 		yield ('query', pairs)
